@@ -116,6 +116,18 @@ def _broken(kind, fail_after):
     return (res, canon_qr(q) == before, tuple(len(r) for r in q.matrix))
 
 
+def _verbose_reuse():
+    """symbols created, iterated (verbose) and dropped one after the other: a later symbol can occupy the address of a dead one"""
+    out = []
+    for k in range(4):
+        for content, ver, mask in (('alignment', 2, 0), ('12345', 3, 1), ('ABC', 1, 2), ('xyz', 2, 3), ('4711', 'M2', 1), ('AB', 'M4', 0)):
+            q = segno.make(content, version=ver, mask=mask)
+            out.append(tuple(q.matrix_iter(verbose=True)))
+            out.append(tuple(q.matrix_iter(scale=2, border=1)))
+            del q
+    return out
+
+
 SHARED = [None]
 
 
@@ -160,6 +172,14 @@ OPS = {
     'data_uris': lambda: [_shared().svg_data_uri(), _shared().png_data_uri(scale=2), _shared().svg_inline(dark='red')],
     'helper_wifi': lambda: helpers.make_wifi('net;work', password='p:w', security='WPA'),
     'helper_epc': lambda: helpers.make_epc_qr('Name', 'DE33100205000001194700', 12.3, text='caf\xe9'),
+    'helper_epc_b': lambda: helpers.make_epc_qr('Fran\xe7ois Other', 'FR1420041010050500013M02606', 9999.99, reference='RF18539007547034', bic='BNPAFRPPXXX', purpose='GDDS'),
+    'helper_wifi_b': lambda: helpers.make_wifi('other\\net', password='"quoted"', security='WEP', hidden=True),
+    'helper_mecard': lambda: helpers.make_mecard('Mustermann,Max', email=['a@b.c', 'd@e.f'], phone='+49 30 1', pobox='7', city='Berlin', zipcode='10115', country='DE'),
+    'helper_mecard_b': lambda: helpers.make_mecard('Doe,Jane', reading='doe', url=['http://x.y/;z'], memo='a:b', roomno='3', prefecture='P', houseno='9'),
+    'helper_vcard_b': lambda: helpers.make_vcard('Roe;Richard', 'R. Roe', phone=['1', '2'], org='ACME, Inc.', street='Main St 1', city='X', zipcode='Z', title='Dr'),
+    'helper_email': lambda: helpers.make_email(['a@b.c', 'd@e.f'], cc='c@c.c', subject='S & T', body='line1\r\nline2'),
+    'helper_geo': lambda: helpers.make_geo(38.8976763, -77.0365297),
+    'iter_verbose_reuse': lambda: _verbose_reuse(),
     'helper_vcard': lambda: helpers.make_vcard_data('Doe;John', 'John Doe', email=['a@b.c', 'd@e.f'], memo='a\nb'),
     'cli_terminal': lambda: _cli(['--version', '1', '--border', '0', 'CLI']),
     'ppm_small_a': lambda: _save(_small(), 'ppm', border=0, dark=DARK, finder_dark='red'),
